@@ -100,7 +100,7 @@ def stage_b(run, tier, rng):
     else:
         jobs += [("fam", 3, "full", i) for i in range(full3)]
     size4 = GG.family_size(4, GG.OBJ_KINDS_SMALL)
-    n4 = 4000 if tier == "quick" else 150000
+    n4 = 4000 if tier == "quick" else 500000
     jobs += [("fam", 4, "small", rng.randrange(size4)) for _ in range(n4)]
     nrand = 2500 if tier == "quick" else 30000
     jobs += [("rand", rng.randrange(1 << 40)) for _ in range(nrand)]
